@@ -310,7 +310,11 @@ func Adv(pj *simdjson.ParsedJson) (roots []*ref.Value, err error) {
 			if t != simdjson.TypeRoot {
 				return fmt.Errorf("top-level Advance gave %v", t)
 			}
-			ct, ri, err := it.Root(nil)
+			var rdst *simdjson.Iter
+			if SharedDst {
+				rdst = &rootDst // recycled across roots and documents: Root must rebind it completely
+			}
+			ct, ri, err := it.Root(rdst)
 			if err != nil {
 				return err
 			}
@@ -740,6 +744,8 @@ func clip(b []byte) string {
 
 // Recycled Object/Array destinations, one per nesting depth (0..63), shared by
 // all Advance-route walks of this process; deeper levels get nil (fresh).
+var rootDst simdjson.Iter
+
 var (
 	objPool [64]*simdjson.Object
 	arrPool [64]*simdjson.Array
